@@ -1,5 +1,3 @@
-//go:build wip_c18
-
 package props
 
 import (
@@ -44,19 +42,19 @@ type mbModel struct {
 	c   *kit.Ctx
 	pkg *types.Package
 
-	Req        *kit.Func        // request processor
-	Switch     *ast.SwitchStmt  // dispatch on the function code
-	Arms       []*mbArm
-	Provider   *types.Var       // provider parameter
-	ProvIface  *types.Interface
-	ProvNamed  *types.Named
-	FcType     types.Type
-	FcField    *types.Var
-	DataField  *types.Var
-	PduType    *types.Named
-	ExcType    *types.Named
-	Mapper     *kit.Func
-	ProvImpl   *types.Named // concrete provider (register file)
+	Req       *kit.Func       // request processor
+	Switch    *ast.SwitchStmt // dispatch on the function code
+	Arms      []*mbArm
+	Provider  *types.Var // provider parameter
+	ProvIface *types.Interface
+	ProvNamed *types.Named
+	FcType    types.Type
+	FcField   *types.Var
+	DataField *types.Var
+	PduType   *types.Named
+	ExcType   *types.Named
+	Mapper    *kit.Func
+	ProvImpl  *types.Named // concrete provider (register file)
 }
 
 func mbIsByteSlice(t types.Type) bool {
